@@ -26,11 +26,16 @@ class C15(PropCheck):
 
     def generate(self):
         quick = self.tier == 'quick'
-        for c in self._gen_small(500 if quick else 6000):
-            yield c
-        for c in self._gen_natural(48 if quick else 500, 2 if quick else 12):
-            yield c
-        for c in self._gen_tail(40 if quick else 420):
+        small = list(self._gen_small(500 if quick else 6000))
+        heavy = list(self._gen_natural(48 if quick else 500, 2 if quick else 12)) + list(self._gen_tail(40 if quick else 420))
+        # the cases of the new families cost the list-based Coq model up to a second each: spread them evenly among the
+        # cheap ones so that the Coq case files (150 cases each, evaluated in parallel) stay balanced
+        ratio = len(small) / float(len(heavy))
+        for k, h in enumerate(heavy):
+            for c in small[int(k * ratio):int((k + 1) * ratio)]:
+                yield c
+            yield h
+        for c in small[int(len(heavy) * ratio):]:
             yield c
 
     def _seed(self):
